@@ -310,6 +310,10 @@ def run_case(case):
         # without an output keyword check() returns every datapoint (the engine's and, as far as the offline sources show, VTL's default is "all")
         return compare_validation(exp, res, case["mode"] or "all", ["Id_1", "Id_2"], "check", with_imbalance=True, measures=()), facts
     exp = hr_expected(case)
+    totals = [v["Me_1"] - v["imbalance"] for v in exp.values()] if case["kind"] == "check_hierarchy" else list(hr_expected(dict(case, out="computed")).values())
+    if any(abs(t) < 1e-12 for t in totals):
+        facts["skipped"] = "zero_total"   # a right-hand total of exactly zero: the *_zero / non_zero modes may treat it specially - outside the region where all modes coincide
+        return [], facts
     if case["kind"] == "check_hierarchy":
         facts["false"] = sum(1 for v in exp.values() if v["bool"] is False); facts["null"] = 0
         return compare_validation(exp, res, case["out"], ["Id_1", "Id_2", "ruleid"], "check_hierarchy:" + (case["mode"] or "default_mode"), with_imbalance=True, measures=("Me_1",)), facts
@@ -335,6 +339,9 @@ def work(seed, n):
     @given(st.one_of(dp_case_strategy(), dp_case_strategy(), check_case_strategy(), hr_case_strategy(), hr_case_strategy()))
     def prop(case):
         fails, facts = run_case(case)
+        if facts.get("skipped"):
+            part.excluded["hierarchical_case_with_zero_total"] = part.excluded.get("hierarchical_case_with_zero_total", 0) + 1
+            return
         nt = facts.get("false", 0) >= 1
         part.case(core.fingerprint(case), nt, sample=dict(script=facts["script"]) if nt and len(part.samples) < 3 else None,
                   labels=["op=" + case["kind"], "mode=" + str(case.get("mode")), "out=" + str(case.get("out", ""))] + (["has_null_outcome"] if facts.get("null") else []))
@@ -349,7 +356,7 @@ def run(ctx):
                 "non-trivial = at least one (datapoint, rule) pair evaluates to FALSE (hierarchy: at least one computed item)")
     n = 40 if ctx.quick else 2500
     ctx.merge(core.pmap("checks.c07", "work", [(ctx.seed * 1009 + k, n) for k in range(16)], procs=16))
-    ctx.assumptions = ["check_hierarchy / hierarchy are generated only where all six validation modes must agree (every mentioned code item present, non-null and non-zero in every group; no rule reads an item another rule computes): "
+    ctx.assumptions = ["check_hierarchy / hierarchy are generated only where all six validation modes must agree (every mentioned code item present, non-null and non-zero in every group, every right-hand total non-zero; no rule reads an item another rule computes): "
                        "the mode-specific treatment of missing / null / zero items and the effect of rule ordering are NOT decided by this check",
                        "when-conditions are generated over identifiers only (never null)"]
 
